@@ -1,0 +1,27 @@
+//go:build verif
+
+// Contracts for the govc verifier (see /verif/DESIGN.md). Comment-only file.
+package crypto
+
+//@ # signature values are valid iff 1 <= r < N, 1 <= s <= N/2 (homestead: low-S only) and the recovery id is 0 or 1 (C23)
+//@ func ValidateSignatureValues
+//@   serves C23
+//@   requires r != nil && s != nil
+//@   ensures exact: result <==> (r.val >= 1 && s.val >= 1 && r.val < secp256k1N.val && s.val < secp256k1N.val && (homestead ==> s.val <= secp256k1halfN.val) && (v == 0 || v == 1))
+//@   ensures order: secp256k1N.val == 115792089237316195423570985008687907852837564279074904382605163141518161494337 && secp256k1halfN.val == div(secp256k1N.val, 2)
+//@   modifies nothing
+
+//@ # ASSUMED: public-key recovery and hashing do not modify program-visible memory (ECDSA/Keccak themselves are uninterpreted)
+//@ func Ecrecover
+//@   trusted
+//@   modifies nothing
+//@ func Keccak256
+//@   trusted
+//@   ensures len(result) == 32
+//@   modifies nothing
+
+//@ # a second signature (r, N - s) for the same message can never be accepted together with (r, s): low-S makes encodings unique
+//@ lemma highSRejected(N int, s int)
+//@   serves C23
+//@   requires N == 115792089237316195423570985008687907852837564279074904382605163141518161494337 && 1 <= s && s <= div(N, 2)
+//@   ensures N - s > div(N, 2)
